@@ -542,7 +542,7 @@ def callee_is(prog, names):
     return p
 
 
-def reach_positions(body, avoid, starts=(0,)):
+def reach_positions(body, avoid, starts=(0,), edges=None):
     """Forward reachability from block entries in `starts` that stops *at* avoid events.
     Returns dict block -> max position reached in that block (position = statement index,
     len(stmts) = the terminator executed and successors entered).  A block with an avoid event
@@ -569,6 +569,8 @@ def reach_positions(body, avoid, starts=(0,)):
             continue
         reached[b] = n + 1                # fully executed
         for s in body.succ(b):
+            if edges is not None and (b, s) not in edges:
+                continue
             if s not in reached:
                 dq.append(s)
     return reached
@@ -580,10 +582,11 @@ def event_reached(body, reached, e):
     return reached[e.b] >= e.pos(body)
 
 
-def must_precede(body, A, B):
+def must_precede(body, A, B, edges=None):
     """every path entry -> (each event in B) crosses an A event first.
-    Returns list of B events that are reachable without A (violations)."""
-    reached = reach_positions(body, A)
+    Returns list of B events that are reachable without A (violations).
+    `edges`: optional set of feasible CFG edges (others are ignored)."""
+    reached = reach_positions(body, A, edges=edges)
     bad = []
     for e in B:
         # B itself is "reached" if control can arrive at its position
@@ -887,16 +890,18 @@ def const_bool_locals(body):
     return set(cand)
 
 
-def feasible_edges(body, starts=(0,), blocked=frozenset()):
+def feasible_edges(body, starts=(0,), blocked=frozenset(), known=None):
     """Forward constant propagation of drop flags; returns (reached_blocks, feasible_edge_set).
     State = frozenset of (flag, value) known facts; joined by intersection per block, iterated
     to a fixpoint (monotone: facts only disappear)."""
     flags = const_bool_locals(body)
+    known = dict(known or {})
+    flags = set(flags) | set(known)
     state = {}
     edges = set()
     work = deque()
     for s in starts:
-        state[s] = {}
+        state[s] = dict(known)
         work.append(s)
     iters = 0
     while work:
@@ -909,8 +914,20 @@ def feasible_edges(body, starts=(0,), blocked=frozenset()):
         st = dict(state[b])
         for s in body.stmts(b):
             l = place_local(s["d"])
-            if l in flags and is_bare(s["d"]):
+            if not is_bare(s["d"]):
+                continue
+            if l in flags and s.get("r") == "use" and s.get("o") and "v" in s["o"][0]:
                 st[l] = s["o"][0]["v"]
+            elif s.get("r") == "use" and s.get("o") and op_place(s["o"][0]) is not None and is_bare(op_place(s["o"][0])) \
+                    and op_local(s["o"][0]) in st and body.types[body.locals[l]]["s"] == "bool":
+                # copy of a tracked boolean
+                st[l] = st[op_local(s["o"][0])]
+                flags.add(l)
+            elif l in st:
+                st.pop(l, None)
+        tt = body.term(b)
+        if tt["k"] == "call" and is_bare(tt["dest"]) and tt["dest"] in st:
+            st.pop(tt["dest"], None)
         t = body.term(b)
         outs = []
         if t["k"] == "switch":
